@@ -125,6 +125,19 @@ Section Prims.
     destruct Hu as [-> | ->]; destruct Hsp as [[-> ->] | [-> | ->]]; cbn; rewrite <- ?app_assoc; reflexivity.
   Qed.
 
+  (* the legacy form the model writes (usage octet = cipher id) is the RFC layout with the MD5 simple S2K key *)
+  Lemma write_legacy_eq_rfc u iv pass ms : wf_mpis ms -> legacy u = true ->
+    write_secret cfb_enc sha1 s2k (WStd u u 0 1 [] 0 iv pass) ms
+    = rfc_secret_part_legacy cfb_enc sha1 u iv (s2k 0 1 u [] 0 pass) ms.
+  Proof.
+    intros H Hl. unfold write_secret, blob_emit, s2k_emit_std, mk_sblob, protect_enc, rfc_secret_part_legacy, rfc_secret_data.
+    cbn [b_usage b_alg b_spec b_halg b_salt b_count b_iv b_enc]. rewrite Hl.
+    rewrite <- (secret_plain_eq_rfc ms H).
+    assert (Hs : 0 <= sumz (secret_plain ms) mod 65536 < 65536) by (apply Z.mod_pos_bound; lia).
+    rewrite (int16_be _ Hs). unfold legacy in Hl. replace (u =? 254) with false by lia.
+    rewrite <- app_assoc. reflexivity.
+  Qed.
+
   (* ---------- unprotect o protect ---------- *)
   Hypothesis cfb_inv : forall a k iv x, cfb_dec a k iv (cfb_enc a k iv x) = x.
   Hypothesis sha1_len : forall x, length (sha1 x) = 20%nat.
@@ -172,6 +185,69 @@ Section Prims.
       rewrite (parse_mpis_plain ms _ H). reflexivity.
   Qed.
 
+  (* the same for ANY usage octet (repair 8563c06: whatever is not 254 carries the 16-bit checksum) *)
+  Lemma gate_sum_ok u pt : u <> 254 -> gate sha1 u (pt ++ int_to_bytes (sumz pt mod 65536) 2) = true.
+  Proof.
+    intros Hu. assert (G := gate_255_ok pt). unfold gate in *.
+    destruct (Z.eqb_spec u 254) as [E|_]; [contradiction|]. change (255 =? 254) with false in G. exact G.
+  Qed.
+  Lemma unprotect_std_protect_any u a sp h salt c iv pass ms : wf_mpis ms ->
+    unprotect_std cfb_dec sha1 s2k (length ms) (mk_sblob cfb_enc sha1 s2k u a sp h salt c iv pass ms) pass = UOk ms (tail_of u ms).
+  Proof.
+    intros H. unfold unprotect_std, decrypt_std, mk_sblob, protect_enc, tail_of.
+    cbn [b_usage b_alg b_spec b_halg b_salt b_count b_iv b_enc]. rewrite cfb_inv.
+    destruct (Z.eqb_spec u 254) as [->|Hu].
+    - rewrite gate_254_ok. rewrite (parse_mpis_plain ms _ H). reflexivity.
+    - rewrite (gate_sum_ok u _ Hu). rewrite (parse_mpis_plain ms _ H). reflexivity.
+  Qed.
+
+  (* the rule before the repair accepted anything under a legacy usage octet *)
+  Lemma gate_old_refuted : exists u pt, legacy u = true /\ gate_old sha1 u pt = true /\ gate sha1 u pt = false.
+  Proof. exists 7, [1; 2; 3]. repeat split. Qed.
+
+  (* ---------- the legacy form: usage octet = cipher id, key = MD5 of the passphrase, IV, 16-bit checksum ---------- *)
+  Definition wf_legacy (u : Z) (iv : bytes) : Prop :=
+    legacy u = true /\ exists bs, block_octets u = Some bs /\ length iv = Z.to_nat bs.
+  Definition legacy_blob (u : Z) (iv enc : bytes) : sblob :=
+    {| b_usage := u; b_alg := u; b_spec := 0; b_halg := 1; b_salt := []; b_count := 0; b_iv := iv; b_enc := enc |}.
+
+  Lemma block_valid' a bs : block_octets a = Some bs -> valid_symalg a = true.
+  Proof.
+    unfold block_octets, valid_symalg. intros H.
+    destruct ((1 <=? a) && (a <=? 4)) eqn:E1; [lia|].
+    destruct ((7 <=? a) && (a <=? 13)) eqn:E2; [lia|discriminate].
+  Qed.
+
+  Lemma s2k_parse_emit_legacy u iv enc : wf_legacy u iv ->
+    blob_emit (BStd (legacy_blob u iv enc)) = [u] ++ iv ++ enc /\
+    s2k_parse (blob_emit (BStd (legacy_blob u iv enc))) = Some (inr (BStd (legacy_blob u iv enc)), []).
+  Proof.
+    intros (Hl & bs & Hbs & Hiv). unfold blob_emit, s2k_emit_std, legacy_blob.
+    cbn [b_usage b_alg b_spec b_halg b_salt b_count b_iv b_enc]. rewrite Hl. cbn [app]. split; [reflexivity|].
+    assert (Hva := block_valid' u bs Hbs). unfold legacy in Hl.
+    unfold s2k_parse.
+    replace ((u =? 254) || (u =? 255)) with false by lia. replace (u =? 0) with false by lia.
+    rewrite Hva, Hbs. rewrite (firstn_app_exact iv enc _ Hiv), (skipn_app_exact iv enc _ Hiv). reflexivity.
+  Qed.
+
+  Lemma legacy_usage_roundtrip u iv pass ms : wf_legacy u iv -> wf_mpis ms ->
+    let b := mk_sblob cfb_enc sha1 s2k u u 0 1 [] 0 iv pass ms in
+    blob_emit (BStd b) = [u] ++ iv ++ cfb_enc u (s2k 0 1 u [] 0 pass) iv
+                                      (secret_plain ms ++ int_to_bytes (sumz (secret_plain ms) mod 65536) 2) /\
+    s2k_parse (blob_emit (BStd b)) = Some (inr (BStd b), []) /\
+    unprotect cfb_dec sha1 s2k (length ms) b pass = Some ms.
+  Proof.
+    intros Hw Hm. cbv zeta.
+    change (mk_sblob cfb_enc sha1 s2k u u 0 1 [] 0 iv pass ms)
+      with (legacy_blob u iv (protect_enc cfb_enc sha1 s2k u u 0 1 [] 0 iv pass ms)).
+    destruct (s2k_parse_emit_legacy u iv (protect_enc cfb_enc sha1 s2k u u 0 1 [] 0 iv pass ms) Hw) as [E P].
+    split; [|split; [exact P|]].
+    - rewrite E. unfold protect_enc. destruct Hw as [Hl _]. unfold legacy in Hl. replace (u =? 254) with false by lia. reflexivity.
+    - change (legacy_blob u iv (protect_enc cfb_enc sha1 s2k u u 0 1 [] 0 iv pass ms))
+        with (mk_sblob cfb_enc sha1 s2k u u 0 1 [] 0 iv pass ms).
+      unfold unprotect. rewrite (unprotect_std_protect_any u u 0 1 [] 0 iv pass ms Hm). reflexivity.
+  Qed.
+
   (* the DESIGN.md statement *)
   Lemma unprotect_protect u a sp h salt c iv pass ms :
     wf_mpis ms -> (u = 254 \/ u = 255) ->
@@ -197,6 +273,7 @@ Section Prims.
     destruct b as [u a sp h salt c iv enc]. cbn [b_usage b_alg b_spec b_halg b_salt b_count b_iv b_enc].
     intros (Hu & Hh & (bs & Hbs & Hiv) & Hsp).
     unfold blob_emit, s2k_emit_std. cbn [b_usage b_alg b_spec b_halg b_salt b_count b_iv b_enc].
+    assert (Hl : legacy u = false) by (unfold legacy; lia). rewrite Hl.
     assert (Hva := block_valid a bs Hbs).
     assert (Hu' : (u =? 254) || (u =? 255) = true) by lia.
     destruct Hsp as [(-> & -> & ->) | [(-> & Hs & ->) | (-> & Hs)]].
